@@ -78,7 +78,7 @@ Proof. exact same_parent_collision_merges. Qed.
 Theorem node_level_clamped : forall (h : N -> N -> N) (p f d : N),
   level_of (node_id h p f d) = N.min d depth_clamp /\
   ((depth_clamp <= d)%N -> node_id h p f d = node_id h p f depth_clamp).
-Proof. intros h p f d. split; [apply node_level|apply deep_levels_clamped]. Qed.
+Proof. exact node_level_and_clamp. Qed.
 Print Assumptions node_level_clamped.
 
 Theorem every_frame_stored : forall (h : N -> N -> N) (nt : nat) (ss : list sample) (s : sample) (y : N),
@@ -249,7 +249,7 @@ Proof. exact ex_stmt_hypotheses. Qed.
 (* GROUP BY with wrapping sums keeps conservation and never needs more rows than the raw hand-over *)
 Theorem grouping_keeps_conservation : forall rows : list row,
   (rconserves rows -> rconserves (group_rows rows)) /\ (length (group_rows rows) <= length rows)%nat.
-Proof. intros rows. split; [apply group_rows_conserves|apply group_rows_length]. Qed.
+Proof. exact grouping_facts. Qed.
 Print Assumptions grouping_keeps_conservation.
 
 (* The diff view (RenderDiff: mergeNodes + computeFlameGraphDiff, coq/model/ProfDiff.v).  mergeChildren, for ANY two
@@ -298,6 +298,32 @@ Theorem diff_levels_nest : forall t1 t2 : mtree,
 Proof. exact diff_levels_nest_trees. Qed.
 Print Assumptions diff_levels_nest.
 
+(* From ingest to the nested DIFF view, no hypothesis on the trees left: two sets of ingested profiles (left and right side
+   of RenderDiff) whose node ids determine the parent jointly over BOTH sets, non-negative values, each side's sum of
+   value x stack depth below 2^63, each side's stored rows in any order, raw or grouped. *)
+Theorem diff_nests_from_ingest : forall (h : N -> N -> N) (na : N) (limit : Z) (PsL PsR : list stored)
+    (rowsL rowsR : list row) (fsL fsR : list (N * Z)),
+  let RL := concat (map (stored_rows h na) PsL) in
+  let RR := concat (map (stored_rows h na) PsR) in
+  parent_determined h (all_triples h na (PsL ++ PsR)) ->
+  Forall sel_ok PsL -> Forall sel_ok PsR ->
+  sumZ (map (prof_depth_weight na) PsL) < two63 -> sumZ (map (prof_depth_weight na) PsR) < two63 ->
+  Forall (fun P => 0 <= prof_depth_weight na P) PsL -> Forall (fun P => 0 <= prof_depth_weight na P) PsR ->
+  Permutation rowsL RL \/ Permutation rowsL (group_rows RL) ->
+  Permutation rowsR RR \/ Permutation rowsR (group_rows RR) ->
+  Z.of_nat (length rowsL) <= limit -> Z.of_nat (length rowsR) <= limit ->
+  dnested (ds_levels (diff_bars (merge_trie limit new_tree rowsL fsL) (merge_trie limit new_tree rowsR fsR))).
+Proof. exact ProfDiffNestProofs.diff_nests_from_ingest. Qed.
+Print Assumptions diff_nests_from_ingest.
+
+(* the hypotheses of diff_nests_from_ingest are met with the first copy of ex_profile on the left and the second on the
+   right (firstn 1 ex_Ps ++ skipn 1 ex_Ps is ex_Ps) *)
+Example diff_nests_from_ingest_applies :
+  parent_determined city16 (all_triples city16 0%N (firstn 1 ex_Ps ++ skipn 1 ex_Ps)) /\
+  Forall sel_ok (firstn 1 ex_Ps) /\ Forall sel_ok (skipn 1 ex_Ps) /\
+  sumZ (map (prof_depth_weight 0%N) (firstn 1 ex_Ps)) < two63 /\ sumZ (map (prof_depth_weight 0%N) (skipn 1 ex_Ps)) < two63.
+Proof. exact ex_diff_ingest_hypotheses. Qed.
+
 Theorem diff_gaps_reconstruct : forall (l : list dbar) (cl cr : Z),
   (forall b, In b l -> 0 <= d_xl b /\ d_xl b + d_tl b < two63 /\ 0 <= d_tl b /\
                        0 <= d_xr b /\ d_xr b + d_tr b < two63 /\ 0 <= d_tr b) ->
@@ -312,7 +338,7 @@ Theorem diff_merge_nodes_aligned : forall (n1 n2 : list (N * list tnode)) (k : N
   map t_id (children (fst (merge_nodes n1 n2)) k) = map t_id (children (snd (merge_nodes n1 n2)) k) /\
   sum_total_of (children (fst (merge_nodes n1 n2)) k) = sum_total_of (children n1 k) /\
   sum_total_of (children (snd (merge_nodes n1 n2)) k) = sum_total_of (children n2 k).
-Proof. intros n1 n2 k. split; [apply merge_nodes_aligned|apply merge_nodes_sums]. Qed.
+Proof. exact merge_nodes_facts. Qed.
 Print Assumptions diff_merge_nodes_aligned.
 
 Example diff_levels_nest_applies :
